@@ -440,6 +440,15 @@ Definition on_accident (s : kstate) (u : nat) (r : arec) (cur_snd : ref) : R :=
       end
   end.
 
+(* onTerminated, children bookkeeping: a terminated child was unregistered before its notice was sent; while an actor is
+   registered under the address the notice is stale (earlier holder of the address, or the answer to a watch request
+   that preceded the spawn) and the present child stays *)
+Definition drop_child (s : kstate) (u : nat) (w : ref) : kstate :=
+  match lookup w (registry s) with
+  | Some _ => s
+  | None => upd_actor s u (fun b => w_children (remove_ref w (a_children b)) b)
+  end.
+
 (* processMessage, system branch *)
 Definition process_sys (s : kstate) (u : nat) (e : env smsg) : R :=
   match get s u with
@@ -467,7 +476,7 @@ Definition process_sys (s : kstate) (u : nat) (e : env smsg) : R :=
           | _ => ok s []
           end
       | STerminatedOf w =>
-          let s1 := upd_actor s u (fun b => w_children (remove_ref w (a_children b)) b) in
+          let s1 := drop_child s u w in
           handle s1 u (if w =? a_tok a then TTS else TTO w) 0%nat snd >>= (fun s2 =>
             match get s2 u with
             | Some a2 =>
